@@ -190,6 +190,21 @@ def run(ctx):
         hlits.append(f"mkC12H {ops} {obs}")
     hbad = coq_bad(ctx, "c12h", "Csv.CsvModel Data.DataModel Mgr.PathsStore Harness.C12Cmp", "c12hist", hlits, ["c12h_agree"], chunk=60)
 
+    # source-derived: the marker constants of paths_manager.py against the model's MARKER
+    import ast
+    msrc = {"exact": [], "joined": [], "other": []}
+    try:
+        tree = ast.parse(open(os.path.join(ctx.pkg, "csvpath", "managers", "paths", "paths_manager.py"), encoding="utf-8").read())
+        for node in ast.walk(tree):
+            if isinstance(node, ast.Constant) and isinstance(node.value, str) and "CSVPATH" in node.value and len(node.value) < 40:
+                v = node.value
+                (msrc["exact"] if not v.startswith("\n") and not v.endswith("\n") else msrc["joined"]).append(v)
+        mbad = coq_bad(ctx, "c12s", "Csv.CsvModel Data.DataModel Mgr.PathsStore Harness.C12Cmp", "c12src",
+                       [f"mkC12S {listlit(msrc['exact'], ulit)} {listlit(msrc['joined'], ulit)}"], ["c12_marker_agree"], chunk=5)["c12_marker_agree"]
+    except Exception as ex:  # noqa
+        msrc["error"] = type(ex).__name__ + ": " + str(ex)[:120]
+        mbad = {0}
+
     def gcase(k):
         i = idx[k]
         return {"level": "group", "paths_added": groups_[i], "identities_written": wants_[i], "impl": gres[i]}
@@ -207,11 +222,14 @@ def run(ctx):
         i = min(hbad["c12h_agree"], key=lambda k: len(hists[k]))
         ctx.violation("manifest", {"what": "the group's manifest does not gain exactly one entry per change of content (none for an identical re-add), or the stored group differs",
                                    "case": hcase(i), "failures": len(hbad["c12h_agree"])})
+    elif mbad:
+        ctx.violation("correspondence", {"what": "the marker constants in paths_manager.py no longer equal the model's MARKER / the separator the model writes between members "
+                                                 "(Harness/C12Cmp.c12_marker_agree); theorems C12_* are about the model only", "disagreeing_case": msrc}, no_input=True)
     elif bad["c12_agree"]:
         ctx.violation("correspondence", {"what": "correspondence Mgr/PathsStore.v (+ Meta/MetaModel.v for identities) vs PathsManager no longer checks (Harness/C12Cmp.c12_agree); theorems C12_* are about the model only",
                                          "disagreeing_case": gcase(sorted(bad["c12_agree"])[0])}, no_input=True)
     ctx.coverage.update({
-        "evaluations": len(groups_) + len(hists),
+        "evaluations": len(groups_) + len(hists), "marker_constants_from_source": msrc,
         "distinct_nontrivial": len({repr(g) for g, o in zip(groups_, gres) if not o["exc"] and len(g) >= 2 and o.get("sel")}),
         "rule": "groups of 1-5 generated csvpaths with outer comments (id/Id/ID/name/Name/NAME in any combination, extra fields, or plain words), inner comments, newlines and odd "
                 "surrounding whitespace; stored with add_named_paths, read back by a fresh instance: group file text, get_named_paths, identities, '#id', '$g.csvpaths.id', ':to', ':from'. "
